@@ -31,13 +31,22 @@ package concurrent
 //@   ensures [unchanged]  old(mboxfull(p.message)) && old(mbox(p.message)).Err == nil && !p.mutable && !p.relay ==> result != nil && mbox(p.message) == old(mbox(p.message))
 //@   assigns mbox(p.message)
 
-// fail: only an unset (or value-less, error-less) promise can be failed; the mailbox is never left empty.
+// fail: only an unset promise can be failed (a promise fulfilled with nil is set, too); the mailbox is never left
+// empty.
 //@ func (*Promise).fail
 //@   property C19
 //@   requires p != nil && p.message != nil
 //@   ensures [never-empty] mboxfull(p.message)
 //@   ensures [first]      !old(mboxfull(p.message)) ==> f && mbox(p.message).Err == err
-//@   ensures [settled]    old(mboxfull(p.message)) && (old(mbox(p.message)).Err != nil || old(mbox(p.message)).Value != nil) ==> !f && mbox(p.message) == old(mbox(p.message))
+//@   ensures [settled]    old(mboxfull(p.message)) ==> !f && mbox(p.message) == old(mbox(p.message))
+//@   assigns mbox(p.message)
+
+// Recover on a promise that is not recoverable is refused and changes nothing (in particular it leaves the result
+// where later Waits find it).
+//@ func (*Promise).Recover
+//@   property C19
+//@   requires p != nil && p.message != nil
+//@   ensures [refused] !p.recoverable ==> !ok && mboxfull(p.message) == old(mboxfull(p.message)) && (old(mboxfull(p.message)) ==> mbox(p.message) == old(mbox(p.message)))
 //@   assigns mbox(p.message)
 
 // Wait on a settled promise does not block and leaves the result in place.
@@ -53,6 +62,20 @@ package concurrent
 //@   lemma
 //@   requires p != nil && p.message != nil && !p.mutable && !p.relay && !mboxfull(p.message)
 //@   ensures e1 == nil && e2 != nil && mboxfull(p.message) && mbox(p.message).Value == v1 && mbox(p.message).Err == nil
+// ... and neither a later Fail nor a refused Recover changes it, whatever the value was (nil included).
+//@ func verifLemmaFulfilledStays
+//@   property C19
+//@   lemma
+//@   requires p != nil && p.message != nil && !p.mutable && !p.relay && !p.recoverable && !mboxfull(p.message)
+//@   ensures e1 == nil && !failed && !recovered && mboxfull(p.message) && mbox(p.message).Value == v1 && mbox(p.message).Err == nil
+func verifLemmaFulfilledStays(p *Promise, v1, v2 interface{}, err error) (e1 error, failed, recovered bool) {
+	e1 = p.Fulfill(v1)
+	failed = p.Fail(v2, err)
+	recovered = p.Recover(v2)
+	p.Wait()
+	return
+}
+
 func verifLemmaFulfillOnce(p *Promise, v1, v2 interface{}) (e1, e2 error) {
 	e1 = p.Fulfill(v1)
 	e2 = p.Fulfill(v2)
